@@ -65,8 +65,8 @@ def rand_case(rng):
     for i in range(nops):
         ot = rng.choice(["query", "query", "query", "mutation", "subscription"])
         nm = None if (nops == 1 and rng.chance(1, 5)) else "Op%d" % i
-        if nm and names and rng.chance(1, 4):
-            nm = names[i % len(names)]           # same name as a fragment: separate name spaces
+        if nm and names and i == 0 and rng.chance(1, 4):
+            nm = names[0]                        # same name as a fragment: separate name spaces
         ops.append(g.operation(nm, names, ot))
     root_defs = []
     if imported:
@@ -95,6 +95,15 @@ def run(ctx, res):
     vlib.write_ndjson(ctx.path("cases.ndjson"), cases)
     vlib.run_harness(["opfile", ctx.path("cases.ndjson"), ctx.path("events.ndjson")])
     events = vlib.read_ndjson(ctx.path("events.ndjson"))
+    # second route: the real CLI in standalone mode (a sample of the TLC cases in quick, all in thorough)
+    vlib.build_cli()
+    step = 4 if ctx.quick else 1
+    cli_cases = cases[:ngen:step] + cases[ngen:]
+    vlib.write_ndjson(ctx.path("cli_cases.ndjson"), cli_cases)
+    open(ctx.path("schema.graphql"), "w").write(G.OPS_SCHEMA)
+    vlib.run_harness(["opfile-cli", vlib.CLI_BIN, ctx.path("cli_cases.ndjson"), ctx.path("cli_events.ndjson"), ctx.path("proj"),
+                      ctx.path("schema.graphql")], timeout=3000)
+    events += vlib.read_ndjson(ctx.path("cli_events.ndjson"))
     o = vlib.validate_trace("Trace_C12", "Trace_C12.cfg", events, workdir=ctx.work, timeout=2400)
     res.add_trace(o)
     res.traces = o.events
@@ -112,6 +121,7 @@ def run(ctx, res):
     res.samples = [events[0]["files"], events[-1]["files"][0]["doc"]["defs"][-1]]
     res.extra.update({"tlc_generated_cases": ngen, "random_cases": nrand,
                       "outcomes": {k: sum(1 for e in events if e["out"]["k"] == k) for k in ("ok", "err", "panic", "malformed")},
+                      "events_by_route": {r: sum(1 for e in events if e["route"] == r) for r in ("loader", "cli")},
                       "embedded_documents_checked": sum(len(e["out"].get("consts", [])) for e in events),
                       "trace_action_coverage": o.coverage})
     res.assumptions = ["the graphql-js AST reader (harness/src/gqljs.rs) is a faithful structural map",
